@@ -7,7 +7,9 @@
    [fault_point_ok] of CrashFault.v — unless (scenario, k, mode) is one of the recorded failures
    [known13].  The shards Fault13_s<i>.v evaluate the checker at every site of each call;
    [fault_ok_sound] (by [run_fault_beyond]: a fault planned beyond the last site never fires)
-   lifts this to all k.
+   lifts this to all k.  The fault sites are the operations of [Sched.is_site]: every open, create,
+   rename, remove, mkdir and flock, and the WRITES — each chunk written into a temp file and the
+   line appended to a cid list (a full disk); see [C13_chunk_write_example], [C13_append_example].
 
    [known13] is the known finding D10: every entry is a PERSISTENT failure whose destination is the
    pid's reference file or the list of the cid being bound; the roll-back (_untag_object ->
@@ -185,7 +187,7 @@ Proof. exact known13_D10_half_bound_shape. Qed.
 Print Assumptions C13_known_D10_half_bound_shape.
 
 Example C13_known_families :
-  length known13_D10_bound = 40 /\ length known13_D10_half_bound = 40 /\ known13_unclassified = [] /\
+  length known13_D10_bound = 40 /\ length known13_D10_half_bound = 50 /\ known13_unclassified = [] /\
   known13 = (known13_D10_bound ++ known13_D10_half_bound)%list.
 Proof. vm_compute. repeat split. Qed.
 
@@ -199,8 +201,8 @@ Print Assumptions C13_start_worlds_defined.
 
 Example C13_menu_size :
   length fault_menu = 77 /\
-  fold_right Nat.add 0 fault_sites = 467 /\             (* fault sites; each in two modes *)
-  length known13 = 80.
+  fold_right Nat.add 0 fault_sites = 512 /\             (* fault sites; each in two modes *)
+  length known13 = 90.
 Proof. vm_compute. repeat split. Qed.
 
 (* the menu as text (coq/menus13.json) parses to the menu of the theorem *)
@@ -210,7 +212,7 @@ Example C13_menu_text_agrees :
   map (fun s => (Some (sc_setup s), Some (sc_call s))) fault_menu.
 Proof. exact fault_menu_text_agrees. Qed.
 
-(* store_object(p1, content 7) into the empty store; site 12 is the read of p1's reference file
+(* store_object(p1, content 7) into the empty store; site 13 is the read of p1's reference file
    in the verification step.  Failing ONCE: the call raises, the roll-back works, p1 is unbound and
    can be stored at once.  Failing PERSISTENTLY: the roll-back fails too — the call raises with p1
    bound (D10), and the retry is rejected. *)
@@ -218,12 +220,12 @@ Definition ex13_call : call := CStore (Some 1) SrcPath 7 1 VSzNone VCkNone.
 
 Example C13_one_off_example :
   In (mkScen 0 [] ex13_call 1 [2; 3] [0; 1]) fault_menu /\
-  site_op 12 empty_world (api ex13_call) = Some (Read (APidRef 1)) /\
-  run_fault (FWait 12 false) empty_world (api ex13_call)
+  site_op 13 empty_world (api ex13_call) = Some (Read (APidRef 1)) /\
+  run_fault (FWait 13 false) empty_world (api ex13_call)
     = Some (mkWorld [(AObj 7, CData 7 1 1)] [], Exn EOSError) /\
   (exists w2, run_seq (mkWorld [(AObj 7, CData 7 1 1)] []) (api ex13_call) = Some (w2, Val (VMeta 7 1)) /\
               retr w2 1 = Some (Val (CData 7 1 1))) /\
-  fault_point_ok empty_world ex13_call 1 [2; 3] [0; 1] 12 false = true.
+  fault_point_ok empty_world ex13_call 1 [2; 3] [0; 1] 13 false = true.
 Proof.
   split; [vm_compute; tauto|]. split; [vm_compute; reflexivity|]. split; [vm_compute; reflexivity|].
   split; [|vm_compute; reflexivity].
@@ -231,12 +233,12 @@ Proof.
 Qed.
 
 Example C13_D10_example :
-  In (0, 12, true) known13_D10_bound /\
-  run_fault (FWait 12 true) empty_world (api ex13_call)
+  In (0, 13, true) known13_D10_bound /\
+  run_fault (FWait 13 true) empty_world (api ex13_call)
     = Some (mkWorld [(AObj 7, CData 7 1 1); (APidRef 1, CCid 7); (ACidRef 7, CLines [1])] [], Exn EOSError) /\
   (exists w', run_seq (mkWorld [(AObj 7, CData 7 1 1); (APidRef 1, CCid 7); (ACidRef 7, CLines [1])] [])
                       (api ex13_call) = Some (w', Exn EHashStoreRefsAlreadyExists)) /\
-  fault_point_ok empty_world ex13_call 1 [2; 3] [0; 1] 12 true = false.
+  fault_point_ok empty_world ex13_call 1 [2; 3] [0; 1] 13 true = false.
 Proof.
   split; [vm_compute; tauto|]. split; [vm_compute; reflexivity|].
   split; [eexists; vm_compute; reflexivity|vm_compute; reflexivity].
@@ -245,8 +247,49 @@ Qed.
 (* a fault that a call survives: a one-off failure of a rename is absorbed by shutil.move's
    copy-and-unlink, the call reports success and its whole effect is there *)
 Example C13_success_example :
-  site_op 10 empty_world (api ex13_call) = Some (Rename (ATmp ArRefs 0 0) (APidRef 1)) /\
-  run_fault (FWait 10 false) empty_world (api ex13_call) = run_seq empty_world (api ex13_call) /\
+  site_op 11 empty_world (api ex13_call) = Some (Rename (ATmp ArRefs 0 0) (APidRef 1)) /\
+  run_fault (FWait 11 false) empty_world (api ex13_call) = run_seq empty_world (api ex13_call) /\
   run_seq empty_world (api ex13_call)
     = Some (mkWorld [(AObj 7, CData 7 1 1); (APidRef 1, CCid 7); (ACidRef 7, CLines [1])] [], Val (VMeta 7 1)).
 Proof. repeat split; vm_compute; reflexivity. Qed.
+
+(* a full disk at the chunk write (site 2 of the same call; the write of a chunk into the temp file
+   is a fault site like any other).  Failing ONCE: store_object raises the generic exception of
+   its handler, the temp file is removed, nothing else was touched.  Failing PERSISTENTLY for that
+   temp file: its removal by the handler fails too (swallowed), the empty temp file is left, and that
+   is all.  Both points pass the checker: p1 is unbound and the retry succeeds. *)
+Example C13_chunk_write_example :
+  site_op 2 empty_world (api ex13_call) = Some (WriteChunk (ATmp ArObj 0 0)) /\
+  run_fault (FWait 2 false) empty_world (api ex13_call) = Some (empty_world, Exn EGeneric) /\
+  run_fault (FWait 2 true) empty_world (api ex13_call)
+    = Some (mkWorld [(ATmp ArObj 0 0, CData 7 1 0)] [], Exn EGeneric) /\
+  fault_point_ok empty_world ex13_call 1 [2; 3] [0; 1] 2 false = true /\
+  fault_point_ok empty_world ex13_call 1 [2; 3] [0; 1] 2 true = true.
+Proof. repeat split; vm_compute; reflexivity. Qed.
+
+(* a full disk at the append of the new line of a cid list: tag_object(p3, 7) when p1 -> 7 (scenario
+   15); site 9 is the write of "p3" into the list of 7.  Failing ONCE: the call raises, the
+   roll-back removes p3's reference, the store is as before.  Failing PERSISTENTLY for that list:
+   the roll-back must read the same list and fails too: p3's reference stays although the list does
+   not name p3 (D10, half-bound), and the retry is rejected — a recorded failure. *)
+Definition ex13_tag_setup : list call := [CStore (Some 1) SrcPath 7 1 VSzNone VCkNone].
+Definition ex13_tag_w0 : world :=
+  mkWorld [(AObj 7, CData 7 1 1); (APidRef 1, CCid 7); (ACidRef 7, CLines [1])] [].
+
+Example C13_append_example :
+  In (mkScen 15 ex13_tag_setup (CTag 3 7) 3 [1; 2] [0; 1]) fault_menu /\
+  setup_world ex13_tag_setup = Some ex13_tag_w0 /\
+  site_op 9 ex13_tag_w0 (api (CTag 3 7)) = Some (AppendWrite (ACidRef 7) 3) /\
+  run_fault (FWait 9 false) ex13_tag_w0 (api (CTag 3 7)) = Some (ex13_tag_w0, Exn EOSError) /\
+  fault_point_ok ex13_tag_w0 (CTag 3 7) 3 [1; 2] [0; 1] 9 false = true /\
+  In (15, 9, true) known13_D10_half_bound /\
+  run_fault (FWait 9 true) ex13_tag_w0 (api (CTag 3 7))
+    = Some (mkWorld [(AObj 7, CData 7 1 1); (APidRef 1, CCid 7); (APidRef 3, CCid 7); (ACidRef 7, CLines [1])] [],
+            Exn EOSError) /\
+  fault_point_ok ex13_tag_w0 (CTag 3 7) 3 [1; 2] [0; 1] 9 true = false.
+Proof.
+  split; [vm_compute; tauto|]. split; [vm_compute; reflexivity|].
+  split; [vm_compute; reflexivity|]. split; [vm_compute; reflexivity|].
+  split; [vm_compute; reflexivity|]. split; [vm_compute; tauto|].
+  split; vm_compute; reflexivity.
+Qed.
